@@ -22,7 +22,11 @@ func VerifC05_EngineScan() {
 	vsym.Assume(K[0][0] < K[1][0] && K[1][0] < K[2][0])
 	var present [3]bool
 	var val [3][]byte
-	n := vsym.IntRange("n", 1, 4)
+	N := 3
+	if vsym.Thorough() {
+		N = 4
+	}
+	n := vsym.IntRange("n", 1, N)
 	for i := 0; i < n; i++ {
 		switch vsym.IntRange("op", 0, 2) {
 		case 0:
